@@ -35,7 +35,10 @@ ParamTable == <<
   [api |-> "eflo_assign", vsw |-> "",  sgs |-> <<>>,               eni |-> "leni-1", ipc |-> 1, ip6 |-> 0, trunk |-> FALSE, tags |-> <<>>],
   [api |-> "eflo_assign", vsw |-> "",  sgs |-> <<>>,               eni |-> "leni-2", ipc |-> 1, ip6 |-> 0, trunk |-> FALSE, tags |-> <<>>],
   [api |-> "assign4", vsw |-> "",      sgs |-> <<>>,               eni |-> "",      ipc |-> 1, ip6 |-> 0, trunk |-> FALSE, tags |-> <<>>],
-  [api |-> "create",  vsw |-> "",      sgs |-> <<"sg-1">>,         eni |-> "",      ipc |-> 1, ip6 |-> 0, trunk |-> FALSE, tags |-> <<>>]
+  [api |-> "create",  vsw |-> "",      sgs |-> <<"sg-1">>,         eni |-> "",      ipc |-> 1, ip6 |-> 0, trunk |-> FALSE, tags |-> <<>>],
+  [api |-> "create",  vsw |-> "vsw-1", sgs |-> <<"sg-1">>,         eni |-> "",      ipc |-> 2, ip6 |-> 0, trunk |-> FALSE, tags |-> << <<"k1", "same">>, <<"k2", "same">>, <<"k3", "same">>, <<"k4", "same">> >>],
+  [api |-> "create",  vsw |-> "vsw-1", sgs |-> <<"sg-1">>,         eni |-> "",      ipc |-> 2, ip6 |-> 0, trunk |-> FALSE, tags |-> << <<"k4", "same">>, <<"k2", "same">>, <<"k1", "same">>, <<"k3", "same">> >>],
+  [api |-> "create",  vsw |-> "vsw-1", sgs |-> <<"sg-1">>,         eni |-> "",      ipc |-> 2, ip6 |-> 0, trunk |-> FALSE, tags |-> << <<"a", "x">>, <<"b", "true">>, <<"c", "true">>, <<"d", "">>, <<"e", "">> >>]
 >>
 
 CONSTANT Params       \* subset of 1..Len(ParamTable) used by a configuration
